@@ -9,6 +9,9 @@ RULE_LATTICE = ("; lattice_* = the EXHAUSTIVE product of structural operand clas
                 "10 significand shapes x every low-word class beside them (zeros, tie, quarter-ulp limit and their neighbours, short and full-width words "
                 "1-3 binades below, far below, least subnormal / least normal) for both operands x the ulp offsets and exponent differences that matter "
                 "for the operation x spellings round-robin), cut into n slices dealt round-robin of which this tier validates the stated number")
+RULE_LATTICE_FN = ("; lattice_exp|log|trig|atrig|hyp = every function of the family on EVERY structural value (10 significand shapes x every "
+                   "low-word class beside them) at the exponents where its behaviour changes, both signs where the domain allows: special high words "
+                   "(1, powers of two, 1.5, all ones) WITH every kind of low word; cut into n slices of which the tier validates the stated number")
 RULE_TRACE = ("seeded generators (directed operand classes: ties, powers of two, cancellation at every depth, "
               "subnormal low words, far-apart exponents; plus random) drive the real crate; every call is one "
               "trace event validated by TLC against the contract in exact limb arithmetic. distinct = distinct "
@@ -144,44 +147,44 @@ PLAN = {
     },
     "C12": {
         "level": "model_checking",
-        "rule": RULE_TRACE + "; the 19 constants + 7 associated constants are a finite set checked completely on every run: each is compared with the correctly rounded double-double of a rigorous ball enclosure (pi by Machin, ln 2 / ln 10 by atanh series, e by Taylor, roots and reciprocals by verified long division / integer square root, all in TLA+)",
-        "traces": [T("angles", (250, 6000), (12, 14))],
+        "rule": RULE_TRACE + "; the 19 constants + 7 associated constants are a finite set checked completely on every run: each is compared with the correctly rounded double-double of a rigorous ball enclosure (pi by Machin, ln 2 / ln 10 by atanh series, e by Taylor, roots and reciprocals by verified long division / integer square root, all in TLA+)" + RULE_LATTICE_FN,
+        "traces": [T("angles", (250, 6000), (12, 14)), T("lattice_ang", (8, 14), (8, 14))],
     },
     "C13": {
         "level": "exploration",
-        "rule": RULE_TRACE + "; sqrt/cbrt/hypot are decided by exact dyadic inequalities on r^2, r^3; powi against a ball enclosure of x^|n| by binary powering",
+        "rule": RULE_TRACE + "; sqrt/cbrt/hypot are decided by exact dyadic inequalities on r^2, r^3; powi against a ball enclosure of x^|n| by binary powering" + RULE_LATTICE_FN,
         "models": [MC("MC_P4_sqrt.cfg", W_SQRT, slices=8), MC("MC_P3_powi.cfg", W_POWI, slices=8), MC("MC_P3_cbrt.cfg", W_CBRT, slices=8), MC("MC_P4_cbrt.cfg", W_CBRT, "thorough"), MC("MC_P5_cbrt.cfg", W_CBRT, "thorough"), MC("MC_P4_powi.cfg", W_POWI, "thorough"),
                    MC("MC_P5_sqrt.cfg", W_SQRT, "thorough"), MC("MC_P5_powi.cfg", W_POWI, "thorough")],
-        "traces": [T("roots", (200, 4000), (8, 14)), T("powi", (120, 2500), (6, 14))],
+        "traces": [T("roots", (200, 4000), (8, 14)), T("powi", (120, 2500), (6, 14)), T("lattice_pow", (256, 14), (8, 14))],
     },
     "C14": {
         "level": "exploration",
-        "rule": RULE_TRACE + "; exp/exp2/exp_m1/powf against rigorous ball enclosures (Taylor series with explicit remainder, argument reduction with an enclosure of ln 2) computed in TLA+; stratified over every entry of the exp(n/128)-1, exp(1/2)^n, exp(16)^n tables and both sides of each range switch" + "; exp_nodes = exp (and a sample of sinh, cosh, tanh, exp_m1) at the exact NODES of the lookup tables: x = y/2 for every integer y the reduction can produce, x = n/128 for every entry of the exp(n/128)-1 table, every exp(16)^a entry x every n/128, with a zero and with tiny low words: each table entry is then used bare or in a single product (complete in both tiers)",
+        "rule": RULE_TRACE + "; exp/exp2/exp_m1/powf against rigorous ball enclosures (Taylor series with explicit remainder, argument reduction with an enclosure of ln 2) computed in TLA+; stratified over every entry of the exp(n/128)-1, exp(1/2)^n, exp(16)^n tables and both sides of each range switch" + "; exp_nodes = exp (and a sample of sinh, cosh, tanh, exp_m1) at the exact NODES of the lookup tables: x = y/2 for every integer y the reduction can produce, x = n/128 for every entry of the exp(n/128)-1 table, every exp(16)^a entry x every n/128, with a zero and with tiny low words: each table entry is then used bare or in a single product (complete in both tiers)" + RULE_LATTICE_FN,
         "models": [MC("MC_P4_expflow.cfg", W_EXPFLOW), MC("MC_P4_powfflow.cfg", W_POWF), MC("MC_P4_exp2scale.cfg", W_EXP2SCALE, slices=8), MC("MC_P4_exp2flow.cfg", W_EXP2FLOW, slices=8),
                    MC("MC_P5_expflow.cfg", W_EXPFLOW, "thorough"), MC("MC_P5_powfflow.cfg", W_POWF, "thorough"), MC("MC_P5_exp2scale.cfg", W_EXP2SCALE, "thorough"), MC("MC_P5_exp2flow.cfg", W_EXP2FLOW, "thorough")],
-        "traces": [T("exps", (250, 5000), (14, 14)), T("exp_nodes", (14, 14), (14, 14))],
+        "traces": [T("exps", (250, 5000), (14, 14)), T("exp_nodes", (14, 14), (14, 14)), T("lattice_exp", (64, 14), (8, 14))],
     },
     "C15": {
         "level": "exploration",
-        "rule": RULE_TRACE + "; logarithms are enclosed by one or two rigorous Newton steps ln x = h + ln(1 + (x - e^h)/e^h) from the claimed result as hint, in ball arithmetic",
-        "traces": [T("logs", (150, 3000), (14, 14))],
+        "rule": RULE_TRACE + "; logarithms are enclosed by one or two rigorous Newton steps ln x = h + ln(1 + (x - e^h)/e^h) from the claimed result as hint, in ball arithmetic" + RULE_LATTICE_FN,
+        "traces": [T("logs", (150, 3000), (14, 14)), T("lattice_log", (64, 14), (8, 14))],
     },
     "C16": {
         "level": "exploration",
-        "rule": RULE_TRACE + "; sin/cos against ball enclosures (reduction with an enclosure of pi/2, Taylor series with remainder), tan cross-multiplied by cos^2",
+        "rule": RULE_TRACE + "; sin/cos against ball enclosures (reduction with an enclosure of pi/2, Taylor series with remainder), tan cross-multiplied by cos^2" + RULE_LATTICE_FN,
         "models": [MC("MC_P4_quadrant.cfg", W_QUAD), MC("MC_P5_quadrant.cfg", W_QUAD, "thorough")],
-        "traces": [T("trig", (180, 3500), (14, 14))],
+        "traces": [T("trig", (180, 3500), (14, 14)), T("lattice_trig", (64, 14), (8, 14))],
     },
     "C17": {
         "level": "exploration",
-        "rule": RULE_TRACE + "; inverse functions are checked by monotone inversion through enclosures of sin/cos at r +- tolerance, with the branch/axis conventions as exact clauses",
+        "rule": RULE_TRACE + "; inverse functions are checked by monotone inversion through enclosures of sin/cos at r +- tolerance, with the branch/axis conventions as exact clauses" + RULE_LATTICE_FN,
         "models": [MC("MC_P4_atanflow.cfg", W_ATAN), MC("MC_P4_asinflow.cfg", W_ASIN, slices=8), MC("MC_P5_atanflow.cfg", W_ATAN, "thorough"), MC("MC_P5_asinflow.cfg", W_ASIN, "thorough")],
-        "traces": [T("atrig", (160, 3000), (14, 14))],
+        "traces": [T("atrig", (160, 3000), (14, 14)), T("lattice_atrig", (64, 14), (8, 14))],
     },
     "C18": {
         "level": "exploration",
-        "rule": RULE_TRACE + "; sinh/cosh/tanh against enclosures of exp; asinh/acosh/atanh by monotone inversion through exp(r +- tolerance); (x, -x) pairs at every magnitude",
-        "traces": [T("hyp", (110, 2000), (14, 14))],
+        "rule": RULE_TRACE + "; sinh/cosh/tanh against enclosures of exp; asinh/acosh/atanh by monotone inversion through exp(r +- tolerance); (x, -x) pairs at every magnitude" + RULE_LATTICE_FN,
+        "traces": [T("hyp", (110, 2000), (14, 14)), T("lattice_hyp", (64, 14), (8, 14))],
     },
     "C20": {
         "level": "model_checking",
